@@ -85,6 +85,78 @@ def pred_valid_separation(case, ctx):
     return case["pause"] in ("ref", "est")
 
 
+@st.composite
+def large_case(draw):
+    task = draw(st.sampled_from(["transcription_chain", "transcription_chain", "transcription_chain", "transcription", "beat", "onset", "multipitch", "melody", "segment", "chord", "hierarchy", "alignment", "pattern"]))
+    return {"task": task, "n": draw(st.sampled_from([300, 1200, 2500])), "seed": draw(st.integers(0, 10 ** 6))}
+
+
+def pred_valid_large(case, ctx):
+    """Size is an input dimension too: long but perfectly ordinary annotations must be scored."""
+    rs = np.random.RandomState(case["seed"])
+    n, task = case["n"], case["task"]
+    if task == "transcription_chain":
+        on = 1.0 + 0.08 * np.arange(n)
+        ref = np.c_[on - 0.04, on + 0.01][::-1].copy()
+        est = np.c_[on, on + 0.05]
+        p = np.full(n, 440.0)
+        ctx.call(transcription.evaluate, ref, p, est, p.copy())
+        ctx.call(transcription_velocity.evaluate, ref, p, np.full(n, 64.0), est, p.copy(), np.full(n, 70.0))
+    elif task == "transcription":
+        on = np.sort(rs.randint(0, 16 * n // 4, n) / 16.0)
+        ref = np.c_[on, on + rs.randint(1, 9, n) / 16.0]
+        k = rs.permutation(n)
+        est = ref[k] + rs.choice([0.0, 1 / 32, -1 / 32], (n, 1))
+        est[:, 0] = np.maximum(est[:, 0], 0.0)
+        est[:, 1] = np.maximum(est[:, 1], est[:, 0] + 1 / 32)
+        rp = 440.0 * 2.0 ** (rs.randint(-12, 13, n) / 12.0)
+        ctx.call(transcription.evaluate, ref, rp, est, rp[k])
+    elif task in ("beat", "onset"):
+        t = 5.0 + np.cumsum(rs.choice([0.25, 0.5, 0.5, 0.53125], n))
+        e = np.sort(t + rs.choice([0.0, 0.015625, -0.03125, 0.25], n))
+        ctx.call(beat.evaluate if task == "beat" else onset.evaluate, t, e)
+    elif task == "multipitch":
+        t = np.arange(n) * 0.01
+        rf = [440.0 * 2.0 ** (rs.randint(-12, 13, rs.randint(0, 4)) / 12.0) for _ in range(n)]
+        ef = [f * rs.choice([1.0, 1.01, 2.0], len(f)) for f in rf]
+        ctx.call(multipitch.evaluate, t, rf, t + 0.005, ef)
+    elif task == "melody":
+        m = n * 8
+        t = np.arange(m) * 256 / 44100
+        f = np.where(rs.rand(m) < 0.3, 0.0, 220.0 * 2.0 ** (rs.randint(-12, 13, m) / 12.0))
+        e = f * rs.choice([1.0, 1.02, 2.0, -1.0], m)
+        ctx.call(melody.evaluate, t, f, np.arange(m + 50) * 0.01, np.r_[e, np.zeros(50)])
+    elif task in ("segment", "chord"):
+        n = min(n, 1200) if task == "segment" else n      # the pairwise metrics build (frames x frames) matrices
+        b = np.r_[0.0, np.cumsum(rs.choice([0.5, 1.0, 2.5], n))]
+        iv = np.c_[b[:-1], b[1:]]
+        b2 = np.unique(np.r_[0.0, b[-1], rs.choice(b, n // 2), rs.randint(1, int(b[-1] * 4), n // 4) / 4.0])
+        iv2 = np.c_[b2[:-1], b2[1:]]
+        if task == "segment":
+            ctx.call(segment.evaluate, iv, list(rs.choice(list("abcde"), len(iv))), iv2, list(rs.choice(list("ABC"), len(iv2))), frame_size=0.5)
+        else:
+            labs = ["C:maj", "A:min", "G:7", "N", "F:maj7/3", "D:min7"]
+            ctx.call(chord.evaluate, iv, list(rs.choice(labs, len(iv))), iv2, list(rs.choice(labs, len(iv2))))
+    elif task == "hierarchy":
+        T = float(n) / 8
+        def lv(k):
+            b = np.unique(np.r_[0.0, T, rs.randint(1, int(T * 2), k) / 2.0])
+            return np.c_[b[:-1], b[1:]]
+        ri, ei = [lv(3), lv(12), lv(40)], [lv(5), lv(25)]
+        ctx.call(hierarchy.evaluate, ri, [list(rs.choice(list("abc"), len(x))) for x in ri], ei, [list(rs.choice(list("abc"), len(x))) for x in ei], frame_size=0.25)
+    elif task == "alignment":
+        t = np.cumsum(rs.choice([0.25, 0.5, 1.0], n * 4))
+        ctx.call(alignment.evaluate, t, np.sort(t + rs.choice([0.0, 0.125, -0.125, 0.5], len(t))))
+    else:
+        def occ(k, shift):
+            return [(float(shift + i * 0.5), float(60 + (i * 7) % 12)) for i in range(k)]
+        P = [[occ(n // 20, 0.0), occ(n // 20, 100.0)], [occ(n // 10, 7.0)]]
+        Q = [[occ(n // 20, 0.0), occ(n // 20 + 3, 50.0)], [occ(n // 10 - 1, 7.5)], [occ(5, 1.0)]]
+        ctx.call(pattern.evaluate, P, Q)
+    ctx.event("task:" + task)
+    return n >= 1200
+
+
 def enum_valid_keys(tier, shard, nshards):
     from checks.c04 import all_keys
     ks = all_keys() + ["Fb minor", "C# major", "c# MAJOR".lower().replace("major", "major")]
@@ -523,6 +595,8 @@ SUBPROPS = [SubProp("valid:" + t, make_valid(t), strategy=R.STRATEGIES[t], n=NV[
 SUBPROPS.append(SubProp("valid:separation_framewise", pred_valid_separation, strategy=separation_valid_case, n=(30, 400), shards=(8, 16), floor=0.2,
                         rule="2-3 Gaussian sources, 2-3 analysis windows, one source pausing (exact zeros) inside one window of the reference or the estimate "
                              "while being non-silent overall; NT = a partially silent window"))
+SUBPROPS.append(SubProp("valid:large_inputs", pred_valid_large, strategy=large_case, n=(12, 200), shards=(8, 16), floor=0.3,
+                        rule="300 / 1200 / 2500-element (melody: 8x) ordinary annotations of 11 task shapes incl. the repeated-note chain that needs a long alternating path; NT = >= 1200 elements"))
 SUBPROPS.append(SubProp("valid:key_strings", pred_valid_key, enum=enum_valid_keys, shards=(1, 1), exhaustive=True,
                         rule="every key string of the documented form, incl. the module docstring's own example"))
 def make_fault_enum(task):
